@@ -163,6 +163,9 @@ def family_table():
     class GammaDistribution(ScipyDistribution):
         scipy_dist_name = "gamma"
 
+    class GumbelDistribution(ScipyDistribution):  # the other documented declaration; a scipy law without shapes
+        scipy_dist = sts.gumbel_r
+
     u = lambda rng, a, b: float(rng.uniform(a, b))  # noqa: E731
     return {
         "Weibull": (WeibullDistribution, {"alpha": (0.5, 4), "beta": (0.9, 3), "gamma": (0, 1)}),
@@ -172,6 +175,7 @@ def family_table():
         "GenGamma": (GeneralizedGammaDistribution, {"m": (0.8, 3), "c": (0.8, 2.5), "lambda_": (0.3, 2)}),
         "VonMises": (VonMisesDistribution, {"kappa": (0.3, 4), "mu": (0.5, 5.5)}),
         "ScipyGamma": (GammaDistribution, {"a": (0.8, 4), "loc": (0, 1), "scale": (0.5, 3)}),
+        "ScipyGumbel": (GumbelDistribution, {"loc": (-2, 6), "scale": (0.4, 2.0)}),
     }
 
 
@@ -320,7 +324,7 @@ def main(ck):
     thorough = ck.tier == "thorough"
     ck.rule = ("(A) ConditionalDistribution over rational doubles with random (also chained) dependence functions x "
                "{cdf, icdf, pdf} x five call shapes, bit-exact vs model and vs constructed template; draw_sample on a "
-               "replayed stream; (B) 7 templates (6 shipped families + a ScipyDistribution subclass) x every non-empty "
+               "replayed stream; (B) 8 templates (6 shipped families + two ScipyDistribution subclasses: gamma by scipy_dist_name, Gumbel by scipy_dist, no shape parameter) x every non-empty "
                "dependent subset of their parameters x random dependence functions x methods x shapes vs constructed "
                "instances; (C) every keyword-binding position for 3-parameter callables; distinct by SHA1")
     ck.assumptions = ["constructed template instances Family(**values) are the reference the property names",
